@@ -396,15 +396,20 @@ Proof.
   rewrite (tag_short npy_magic inp) by exact H.
   rewrite (tag_short text_start inp) by exact H. reflexivity.
 Qed.
-Theorem read_spectrum_npy sh vals : file_ok sh vals -> read_spectrum (write_npy sh vals) = inl (sh, vals).
+Theorem read_spectrum_npy sh vals : file_ok sh vals -> existsb (N.eqb 0) sh = false ->
+  read_spectrum (write_npy sh vals) = inl (sh, vals).
 Proof.
-  intros H. unfold read_spectrum. rewrite detect_write_npy, npy_roundtrip by exact H. reflexivity.
+  intros H Hz. unfold read_spectrum. rewrite detect_write_npy, npy_roundtrip by exact H. rewrite Hz. reflexivity.
 Qed.
-Theorem read_spectrum_count inp sh vals : read_spectrum inp = inl (sh, vals) -> N.of_nat (length vals) = nelements sh.
+(* an accepted spectrum has as many values as its shape says, and no axis of length zero *)
+Theorem read_spectrum_count inp sh vals : read_spectrum inp = inl (sh, vals) ->
+  N.of_nat (length vals) = nelements sh /\ existsb (N.eqb 0) sh = false.
 Proof.
   unfold read_spectrum. destruct (detect_format inp) as [[|]|]; [| |discriminate].
-  - destruct (read_npy inp) as [r|e] eqn:E; [|discriminate]. intros H. inversion H. subst.
-    eapply read_npy_count. exact E.
-  - destruct (read_text inp) as [r|e] eqn:E; [|discriminate]. intros H. inversion H. subst.
-    eapply read_text_count. exact E.
+  - destruct (read_npy inp) as [[sh0 v0]|e] eqn:E; [|discriminate].
+    destruct (existsb (N.eqb 0) sh0) eqn:Ez; [discriminate|]. intros H. inversion H. subst.
+    split; [eapply read_npy_count; exact E | exact Ez].
+  - destruct (read_text inp) as [[sh0 v0]|e] eqn:E; [|discriminate].
+    destruct (existsb (N.eqb 0) sh0) eqn:Ez; [discriminate|]. intros H. inversion H. subst.
+    split; [eapply read_text_count; exact E | exact Ez].
 Qed.
